@@ -97,6 +97,9 @@ func c06Gen(r *rand.Rand, tier string) any {
 		if r.IntN(12) == 0 {
 			p.Exts[r.IntN(len(p.Exts))].Fails = true
 		}
+		for e := range p.Exts {
+			p.Exts[e].Flag = r.IntN(3) == 0
+		}
 	}
 	for _, pk := range pkgs {
 		ps := pkgSpec{Path: pk, Yields: r.IntN(3)}
@@ -460,7 +463,70 @@ func c06Exec(scAny any, c *simcheck.Ctx) *simcheck.Violation {
 			}
 		}
 	}
-	if cyclic || broken || len(h.p.Modules) == 0 || h.lastProj == nil {
+	if cyclic || broken || h.lastProj == nil {
+		return nil
+	}
+	// watch mode: dawn.toml moves a requirement to another version and the loaded project is
+	// reloaded - the new version may put another project behind an alias, or require others
+	if rt := c.Tapes.Get("reqreload"); len(h.p.Exts) > 0 && rt.Intn(2) == 0 {
+		var direct []int
+		for e := range h.p.Exts {
+			if h.p.Exts[e].Sel >= 0 {
+				direct = append(direct, e)
+			}
+		}
+		if len(direct) > 0 {
+			e := direct[rt.Intn(len(direct))]
+			h.p.Exts[e].Sel = (h.p.Exts[e].Sel + 1 + rt.Intn(len(extVersions)-1)) % len(extVersions)
+			var err error
+			if h.prev, err = h.p.sync(h.w.root, h.prev); err != nil {
+				return simcheck.V(simcheck.EngineError, "sync: %v", err)
+			}
+			g2, roots2 := h.p.loadGraph()
+			cyclic2, reach2 := graphCyclic(g2, roots2)
+			broken2 := false
+			for i := range h.p.Exts {
+				broken2 = broken2 || (h.p.Exts[i].Fails && reach2[extLabel(i)])
+			}
+			for i := range h.p.Modules {
+				broken2 = broken2 || (h.p.Modules[i].Fails && reach2[h.p.Modules[i].label()])
+			}
+			what := fmt.Sprintf("reload after the requirement on %s moved to %s", extPath(e), extVersions[h.p.Exts[e].Sel])
+			h.w.events = nil
+			res := h.build(9, &opSpec{Op: "load-only", Reload: true}, h.pc, nil)
+			if v := procFailure(res); v != nil {
+				if v.Class != simcheck.EngineError {
+					v.Msg = what + ": " + v.Msg
+				}
+				return v
+			}
+			c.St.Count("reloads_after_a_requirement_moved", 1)
+			switch {
+			case cyclic2:
+				if res.LoadErr == nil || !strings.Contains(res.LoadErr.Error(), "cyclic dependency") {
+					return simcheck.V("cycle-error-not-reported", "%s: the load graph now has a cycle but the reload ended with %v", what, res.LoadErr)
+				}
+				return nil
+			case broken2:
+				return nil
+			case res.LoadErr != nil:
+				return simcheck.V("acyclic-load-failed", "%s: the load graph is acyclic but the reload failed: %v", what, res.LoadErr)
+			}
+			var got []string
+			for _, t := range res.Proj.Targets() {
+				got = append(got, t.Label().String())
+			}
+			for _, f := range res.Proj.Flags() {
+				got = append(got, "flag:"+f.Name)
+			}
+			sort.Strings(got)
+			if want := h.p.expectedTargets(); strings.Join(got, " ") != strings.Join(want, " ") {
+				return simcheck.V("wrong-targets", "%s: the reloaded project has %v, the tree declares %v", what, got, want)
+			}
+			reach = reach2
+		}
+	}
+	if len(h.p.Modules) == 0 || h.lastProj == nil {
 		return nil
 	}
 	return c06Reloads(h, c, reach)
@@ -603,6 +669,16 @@ func (p *projSpec) expectedTargets() []string {
 				name = strings.ReplaceAll(d, "/", ".") + "." + name
 			}
 			out = append(out, "flag:"+name)
+		}
+	}
+	if len(p.Exts) > 0 {
+		// flags declared by the modules of required projects that some package reaches
+		g, roots := p.loadGraph()
+		_, reach := graphCyclic(g, roots)
+		for i := range p.Exts {
+			if p.Exts[i].Flag && reach[extLabel(i)] {
+				out = append(out, fmt.Sprintf("flag:extopt%d", i))
+			}
 		}
 	}
 	sort.Strings(out)
